@@ -995,32 +995,32 @@ func runC05D1(c *Ctx) {
 	const detail = "after targets were removed from a route, every path to return must run the pass that rebuilds each host's route list without target-less routes and then the pass that deletes hosts without routes; otherwise 'route del' leaves empty routes/hosts behind (they shadow less specific routes and answer 'no route')"
 	d := &c05Cleanup{c: c, listMemo: map[ssa.Value]int{}, evMemo: map[ssa.Instruction][2]bool{}, sumMemo: map[c05SumKey]*[3]bool{}}
 	nRemovals, nChecked := 0, 0
-	for _, f := range c.AllFns {
-		var removals []ssa.Instruction
-		eachInstr(f, func(i ssa.Instruction) {
-			if _, removal := c05TargetsStore(i); removal {
-				removals = append(removals, i)
-			}
-		})
-		for _, st := range removals {
-			nRemovals++
-			if d.resolvedAfter(st, nil) {
-				nChecked++
-				c.check(rule, fnKey(f)+"|removal of targets followed by removal of empty routes and hosts", st.Pos(), true, detail)
-				continue
-			}
-			sites := c05Sites(f)
-			if len(sites) == 0 {
-				nChecked++
-				c.check(rule, fnKey(f)+"|removal of targets followed by removal of empty routes and hosts", st.Pos(), false, detail)
-				continue
-			}
-			// report at the calls that remove targets (r.filter(...) in delRoute), wherever the cleanup is found
-			for _, s := range sites {
-				nChecked++
-				ok := d.resolvedUp(s, c05NilValsAt(s, c05NilResultsAfter(st, nil)), 1, map[ssa.Instruction]bool{})
-				c.check(rule, fnKey(s.Parent())+"|removal of targets followed by removal of empty routes and hosts", s.Pos(), ok, detail)
-			}
+	// a removal is judged where its list is chosen: at the store, or - for a setter that stores the list it is handed -
+	// at the calls of the setter that hand it a list which is not an append to the old one (c05TargetsWrites)
+	done := map[ssa.Instruction]bool{}
+	for _, w := range c05IndexWrites(c).all {
+		if !w.removal || done[w.at] {
+			continue
+		}
+		done[w.at] = true
+		st, f := w.at, w.at.Parent()
+		nRemovals++
+		if d.resolvedAfter(st, nil) {
+			nChecked++
+			c.check(rule, fnKey(f)+"|removal of targets followed by removal of empty routes and hosts", st.Pos(), true, detail)
+			continue
+		}
+		sites := c05Sites(f)
+		if len(sites) == 0 {
+			nChecked++
+			c.check(rule, fnKey(f)+"|removal of targets followed by removal of empty routes and hosts", st.Pos(), false, detail)
+			continue
+		}
+		// report at the calls that remove targets (r.filter(...) in delRoute), wherever the cleanup is found
+		for _, s := range sites {
+			nChecked++
+			ok := d.resolvedUp(s, c05NilValsAt(s, c05NilResultsAfter(st, nil)), 1, map[ssa.Instruction]bool{})
+			c.check(rule, fnKey(s.Parent())+"|removal of targets followed by removal of empty routes and hosts", s.Pos(), ok, detail)
 		}
 	}
 	c.atLeast(rule, "stores that remove targets from Route.Targets", nRemovals, 1)
